@@ -656,6 +656,8 @@ impl VersionSet {
             let level_to_compact: usize;
 
             if needs_size_compaction {
+                #[cfg(feature = "verif_hooks")]
+                crate::verif::bump(crate::verif::Counter::SizeCompaction);
                 log::debug!("Determined that a size triggered compaction is neccessary");
                 level_to_compact = current_version
                     .get_size_compaction_metadata()
@@ -685,6 +687,8 @@ impl VersionSet {
                         .push(Arc::clone(&current_version.files[level_to_compact][0]));
                 }
             } else if needs_seek_compaction {
+                #[cfg(feature = "verif_hooks")]
+                crate::verif::bump(crate::verif::Counter::SeekCompaction);
                 log::debug!("Determined that a seek triggered compaction is neccessary");
                 let seek_compaction_metadata = current_version.get_seek_compaction_metadata();
                 level_to_compact = seek_compaction_metadata.level_of_file_to_compact;
@@ -788,10 +792,21 @@ impl VersionSet {
     }
 }
 
+/// Verification hooks
+#[cfg(feature = "verif_hooks")]
+impl VersionSet {
+    /// The number of versions that are still linked into the version set.
+    pub(crate) fn verif_num_versions(&self) -> usize {
+        self.versions.len()
+    }
+}
+
 /// Private methods
 impl VersionSet {
     /// Add a new version to the version set.
     fn append_new_version(&mut self, new_version: Version) {
+        #[cfg(feature = "verif_hooks")]
+        crate::verif::bump(crate::verif::Counter::VersionInstalled);
         let old_version = self.get_current_version();
         self.current_version = self.versions.push(new_version);
 
@@ -1029,8 +1044,12 @@ impl VersionSet {
                     change_manifest.wal_file_number.as_ref(),
                     prev_sequence_num
                 );
+                #[cfg(feature = "verif_hooks")]
+                crate::verif::point("manifest.before_append");
                 let serialized_manifest: Vec<u8> = Vec::from(change_manifest);
                 manifest_file.lock().append(&serialized_manifest)?;
+                #[cfg(feature = "verif_hooks")]
+                crate::verif::point("manifest.after_append");
 
                 if is_new_manifest_file {
                     log::info!(
